@@ -24,7 +24,7 @@
    association list kept in increasing key order (boost::dynamic_bitset's operator< on equal sizes is numeric order). *)
 From Coq Require Import List NArith.
 Import ListNotations.
-From Y2 Require Import Model.Registry Model.Compile Model.MiniGrp Gen.GenGrp Proofs.Interfaces Proofs.GrpSource.
+From Y2 Require Import Model.Registry Model.Compile Spec.Dispatch Model.MiniGrp Gen.GenGrp Proofs.Interfaces Proofs.GrpSource Proofs.GrpCompose.
 
 Theorem C04_source_groups_entries : forall L m enum mi slots firsts s,
   (forall v x, In x (enum v) <-> In x (nth v (l_cov L) [])) -> (forall v, NoDup (enum v)) -> (forall v, NoDup (nth v (l_cov L) [])) ->
@@ -43,6 +43,18 @@ Theorem C04_source_groups_entries : forall L m enum mi slots firsts s,
              (seq 0 (length (cm_vp m))) s)).
 Proof. exact src_groups_entries. Qed.
 Print Assumptions C04_source_groups_entries.
+
+(* the hypotheses hold of everything update produces: for every well-formed registry, running the translated grouping and the
+   translated entry loop for every method in turn (any enumeration order of the unordered sets) yields the v-tables of
+   compile R - the slot state being the one assign_slots produced *)
+Theorem C04_source_vtbls_compile : forall R C enum, wf_registry R -> compile R = Ok C ->
+  (forall v x, In x (enum v) <-> In x (nth v (l_cov (o_lat C)) [])) -> (forall v, NoDup (enum v)) ->
+  exists st, slots_ok (o_lat C) (o_meths C) st /\ o_slots C = s_slots st /\ o_first C = s_first st /\
+    run_methods (o_lat C) st enum (combine (seq 0 (length (o_meths C))) (o_meths C))
+                (map (fun c => repeat (0, 0, 0) (nth c (s_vlen st) 0)) (seq 0 (length (l_keys (o_lat C)))))
+    = Some (o_vtbl C).
+Proof. exact src_vtbls_compile. Qed.
+Print Assumptions C04_source_vtbls_compile.
 
 (* non-vacuity: A <- B, A <- C (A abstract); one method on (A, A) with definitions (B, A) and (A, C); the classes are walked
    in reverse order *)
